@@ -2,7 +2,7 @@
 Decided: T1 (one numeric kind on every return path, at every date) + T2 (that kind is the declared
 one) + P0 (every rule is evaluated through the row-wise wrapper).  Engine T (abstract interpreter),
 argument kinds taken from the producing side of the static DAG."""
-from ._typing import KindRun, file_kind_findings, vectorize_mode
+from ._typing import KindRun, file_kind_findings, input_type_gate, vectorize_mode
 
 
 def check(ctx):
@@ -16,6 +16,7 @@ def check(ctx):
     ctx.ob("P0", ok=not p0, distinct="wrapper", n=3)
     for rid, loc, msg in p0:
         ctx.violation("P0", rid, loc, msg)
+    input_type_gate(ctx, __import__("staticlib.session", fromlist=["x"]).get_session(ctx.root).repo)
     kr = KindRun(ctx)
     ctx.info(f"vectorize mode: {s_mode} ({where}); {len(kr.dates)} interval sample dates {kr.dates[0]}..{kr.dates[-1]}")
     if s_mode == "first-row":
